@@ -106,3 +106,67 @@ theorem sliceExpr_restrict (T : Var) (vs : List Var) (hT : T.CM) (s : Survey) (k
     simp [cubeOf]
 
 end CrCube
+
+namespace CrCube
+
+/-! ### table dimension = the items of a categorical array -/
+
+/-- the categorical variable "answer on item k" of a categorical array -/
+def Var.itemVar (ca : Var) : Var := { kind := .cat, n := ca.catMissing.length, catMissing := ca.catMissing }
+
+/-- survey recoded to the single item k of the leading categorical array -/
+def recodeItem (k : Nat) (r : Resp) : Resp :=
+  { r with ans := match r.ans with
+      | aCA :: rest => (match aCA[k]? with | some c => [c] | none => []) :: rest
+      | [] => [] }
+
+theorem ca_item_mem (ca : Var) (hk : ca.kind = .arr) (a : List Nat) (k c : Nat) :
+    ca.mem a [k, c] = ca.itemVar.mem (match a[k]? with | some c' => [c'] | none => []) [c] := by
+  simp only [Var.mem, hk, Var.itemVar]
+  cases a[k]? with
+  | none => simp
+  | some c' => simp
+
+/-- **Partition k of a cube led by a categorical array restricts to sub-variable k**: fixing item
+    k gives the valid-element cube over (item k as a categorical variable) :: vs of the same
+    respondents. -/
+theorem sliceExpr_ca_item (ca : Var) (vs : List Var) (hca : ca.kind = .arr) (hnm : ca.isMR = false)
+    (s : Survey) (k : Nat) (hk : k < ca.n) :
+    sliceExpr 3 .arr k (validCube (ca :: vs) (cubeOf (ca :: vs) s))
+      = validCube (ca.itemVar :: vs) (cubeOf (ca.itemVar :: vs) (s.map (recodeItem k))) := by
+  simp only [sliceExpr, validCube, FT.take, FT.slice0, Var.validAxes, hca, Var.itemVar,
+    List.flatMap_cons, List.map_append, List.map_cons, List.map_nil, List.tail_cons,
+    List.cons_append, List.nil_append, List.singleton_append]
+  simp only [show ¬ (3 < 3) by omega, if_false, show ¬ (DK.arr = DK.mr) by decide]
+  congr 1
+  funext ix
+  simp only [cubeOf]
+  congr 1
+  rw [wsum_map s (recodeItem k) (fun _ => rfl)]
+  apply wsum_congr
+  intro r _
+  cases ix with
+  | nil =>
+    simp only [List.zipWith_nil_right, List.zipWith_cons_cons, List.getD]
+    unfold recodeItem
+    match r.ans with
+    | [] => simp [memCell]
+    | aCA :: rest => simp [memCell, Var.mem, Var.rank, hca, Var.itemVar]
+  | cons i rest =>
+    simp only [List.zipWith_cons_cons, List.getD, List.getElem?_range hk, Option.getD_some]
+    have h1 := memCell_cons ca vs r.ans [k, (validIdxs ca.catMissing)[i]?.getD 0]
+      (List.zipWith (fun l i => l[i]?.getD 0) (vs.flatMap Var.validAxes) rest) (by simp [Var.rank, hca])
+    have h2 := memCell_cons ca.itemVar vs (recodeItem k r).ans [(validIdxs ca.catMissing)[i]?.getD 0]
+      (List.zipWith (fun l i => l[i]?.getD 0) (vs.flatMap Var.validAxes) rest) (by simp [Var.rank, Var.itemVar])
+    simp only [List.cons_append, List.nil_append] at h1 h2
+    simp only [Var.itemVar] at h2 ⊢
+    rw [h1, h2]
+    unfold recodeItem
+    match r.ans with
+    | [] => rfl
+    | aCA :: as =>
+      simp only
+      rw [ca_item_mem ca hca aCA k]
+      rfl
+
+end CrCube
